@@ -393,6 +393,84 @@ theorem C07_show_parse (e : HExpr) (hw : e.wf = true) : ∃ f0, ∀ f, f0 ≤ f 
 
 /-! ## 5. non-vacuity: the hypotheses are satisfiable by concrete, non-trivial states -/
 
+/-! ## 6. rebinding: an annotation denotes what its names denote when the `def` executes -/
+
+/-- **C07_spec_def_evaluated (the evaluated form is fixed at the def point).** When every name of the string-free
+    annotation `e` is bound at the def point (state `s0`) and Python evaluates it there to `v`, the specified hint
+    (`specDef`) of the callable — annotated with the evaluated `e` or with the string `'e'` — is `v` in EVERY later
+    state `s`, whatever has been rebound since (the heap only gains entries). -/
+theorem C07_spec_def_evaluated (s0 s : St) (fr : FuncRec) (e : HExpr) (v : H)
+    (hplain : e.plain = true)
+    (hbound : ∀ n ∈ e.names, (specLookup s0 fr.lex n).isSome = true)
+    (hpy : evalH s0.heap (pyLk s0 fr.lex) false e = .ok v)
+    (hm : HeapMono s0.heap s.heap) :
+    specDef s0 s { fr with expr := e } = embed v ∧ specDef s0 s { fr with expr := .quoted e } = embed v := by
+  have hlk : ∀ n ∈ e.names, specDefLk s0 s fr.fid fr.lex n = pyLk s0 fr.lex n := by
+    intro n hn
+    have hb := hbound n hn
+    simp only [specDefLk, pyLk]
+    cases h : specLookup s0 fr.lex n with
+    | some w => rfl
+    | none => simp [h] at hb
+  have hev : evalH s.heap (specDefLk s0 s fr.fid fr.lex) true e = .ok v := by
+    rw [evalH_congr s.heap _ _ true e hlk, evalH_plain s.heap _ e hplain]
+    exact evalH_mono s0.heap s.heap hm _ false e v hpy
+  constructor
+  · simp only [specDef, hev]
+  · simp only [specDef, evalH, hev, if_true]
+
+/-- **C07_spec_def_now (without rebinding the def-point reading is the current reading).** If every name of the
+    annotation that was bound at the def point still denotes the same object, `specDef` is `specNow`: the theorems
+    stated with `specNow` (sections 1-5: histories that rebind nothing) are statements about `specDef`. -/
+theorem C07_spec_def_now (s0 s : St) (fr : FuncRec)
+    (hsame : ∀ n ∈ fr.expr.names, specLookup s0 fr.lex n = none ∨ specLookup s0 fr.lex n = specLookup s fr.lex n) :
+    specDef s0 s fr = specNow s fr := by
+  have hlk : ∀ n ∈ fr.expr.names, specDefLk s0 s fr.fid fr.lex n = specLk s fr.fid fr.lex n := by
+    intro n hn
+    rcases hsame n hn with h | h
+    · simp only [specDefLk, h]
+    · simp only [specDefLk]
+      cases h0 : specLookup s0 fr.lex n with
+      | none => rfl
+      | some w =>
+        rw [h0] at h
+        simp only [specLk, ← h]
+  simp only [specDef, specNow, evalH_congr s.heap _ _ true fr.expr hlk]
+
+/-- **C07_rebound_checked_alike (a name rebound after the decoration changes nothing).** A callable whose annotation
+    — evaluated `e` or string `'e'` — has all its names bound at the def point and was stored by the decorator as the
+    proxy-free `v` Python evaluates `e` to there (`C07_equiv`, `C07_equiv_evaluated`) is checked against `v` in every
+    later state, and `v` is the specified hint there: rebinding a name of the annotation afterwards (a class
+    redefined, an alias reassigned) affects neither side, and a SECOND callable defined after the rebinding with the
+    same string has its own def point, hence its own `v`. -/
+theorem C07_rebound_checked_alike (s0 s : St) (f : Nat) (fr : FuncRec) (e : HExpr) (v : H)
+    (hplain : e.plain = true)
+    (hbound : ∀ n ∈ e.names, (specLookup s0 fr.lex n).isSome = true)
+    (hpy : evalH s0.heap (pyLk s0 fr.lex) false e = .ok v)
+    (hm : HeapMono s0.heap s.heap) (hv : v.closed = true)
+    (hf : s.func? f = some fr) (hh : fr.hint = some v) (hex : fr.expr = e ∨ fr.expr = .quoted e) :
+    (∃ sp, step s (.call f) = (s, .called (embed v) sp)) ∧ specDef s0 s fr = embed v := by
+  constructor
+  · exact ⟨_, (C07_checked_alike.{0} s f fr v hv hf hh).1⟩
+  · have h := C07_spec_def_evaluated s0 s fr e v hplain hbound hpy hm
+    rcases hex with hx | hx
+    · have : fr = { fr with expr := e } := by cases fr; simp only at hx; subst hx; rfl
+      rw [this]; exact h.1
+    · have : fr = { fr with expr := .quoted e } := by cases fr; simp only at hx; subst hx; rfl
+      rw [this]; exact h.2
+
+/-- **Witness: a class decorated as a whole reads a rebound class attribute at the END of the class body.**
+    `@beartype class C: K = int; def m(self, x: 'K'): …; K = str` — the decorator runs after the body, its forward
+    scope holds the FINAL class dictionary, the string `'K'` is stored as `str` (2); the evaluated annotation `K` of
+    the same method was fixed when the `def` executed: `int` (1). (`C07_rebound_checked_alike` needs the stored hint
+    to be the def-point value, which holds when the callable itself is decorated.) -/
+theorem C07_rebound_class_decorated_counterexample :
+    let evs : List Ev := [.enter true 901 "C", .bindV "K" (.obj 1), .def_ 1 "m" (.quoted (.name "K")),
+      .bindV "K" (.obj 2), .leave 103, .decorate 1 [("C", 103)], .bindV "C" (.obj 103), .call 1]
+    let s0 := St.init [("int", .obj 1), ("str", .obj 2)] []
+    let d := runDP [] s0 evs
+    ((tagsAt (run s0 evs).2 7).map (·.1), (specCall d.1 d.2 1).map RH.tag) = (some (0, 2), some (0, 1)) := by decide
+
 section examples
 
 /-- module with `class A`, builtins `list`, `int` -/
@@ -477,6 +555,29 @@ example :
     lastTags (run (St.init [("int", .obj 1)] []) [.enter false 10 "outer",
       .def_ 1 "f" (.quoted (.sub (.name "Box") [.name "int"])), .decorate 1 [], .bindV "Box" (.obj 7), .call 1]).2
       = some ((0, 7), (5, 0)) := by decide
+
+/-- rebinding between two decorations: `class K` (101); `@beartype def f(x: 'K')`; `class K` (102);
+    `@beartype def g(x: 'K')`; `g(…)`; `f(…)`. The implementation checks `g` against 102 and `f` against 101, and these
+    are the specified hints read at the def points (`specCall`); reading `f`'s annotation NOW (`specNow`) gives 102. -/
+example :
+    let evs : List Ev := [.bindV "K" (.obj 101), .def_ 1 "f" (.quoted (.name "K")), .decorate 1 [],
+      .bindV "K" (.obj 102), .def_ 2 "g" (.quoted (.name "K")), .decorate 2 [], .call 2, .call 1]
+    let s0 := St.init [("list", .obj 6)] []
+    let r := run s0 evs
+    let d := runDP [] s0 evs
+    (tagsAt r.2 6, tagsAt r.2 7) = (some ((0, 102), (0, 102)), some ((0, 101), (0, 102))) ∧
+    ((specCall d.1 d.2 2).map RH.tag, (specCall d.1 d.2 1).map RH.tag) = (some (0, 102), some (0, 101)) := by decide
+
+/-- `C07_rebound_checked_alike` applies to `f` of that program (def point: only the first `K` exists). -/
+example :
+    let s1 : St := { St.init [("list", .obj 6)] [] with globals := [("K", .obj 101)] }
+    let fr : FuncRec := { fid := 1, name := "f", lex := [], expr := .quoted (.name "K"), hint0 := .str (.name "K"), hint := some (.obj 101) }
+    let s : St := { s1 with globals := [("K", .obj 102), ("K", .obj 101)], funcs := [fr] }
+    specDef s1 s fr = .obj 101 := by
+  intro s1 fr s
+  exact (C07_rebound_checked_alike s1 s 1 fr (.name "K") (.obj 101) rfl
+    (by intro n hn; simp only [HExpr.names, List.mem_cons, List.not_mem_nil, or_false] at hn; subst hn; rfl)
+    rfl (fun _ _ _ h => h) rfl rfl rfl (Or.inr rfl)).2
 
 end examples
 
